@@ -13,6 +13,7 @@ import Mahotas.Proofs.C17Odd
 import Mahotas.Proofs.C17Mem
 import Mahotas.Proofs.C17Center
 import Mahotas.Proofs.C17Round
+import Mahotas.Proofs.C17Cast
 import Mahotas.Proofs.C17RoundTrip
 import Mathlib.Algebra.Order.Ring.Rat
 namespace Mahotas.C17
@@ -984,3 +985,63 @@ example : (List.range 6).map (fun (a : Nat) => (Mem.wrapMem .haar false ([] : Li
     = (List.range 6).map (fun (a : Nat) => haar2 false 2 3
       (fun y x => ([10, 20, 30, 1, 2, 3] : List ℚ).getD (3 * y + x) 0) (a / 3) (a % 3)) := by
   decide +kernel
+
+/-- **C17-T6 (proved tolerance of the ten generated tables, any ordered field).** `C17_tables_error_bound` for images
+over EVERY linearly ordered field `K` (ℝ included), not only ℚ: the table `coeffsOf code : List K` is the cast of the
+rational table, its residuals and error constant are the casts of the rational ones (`Proofs/C17Cast.lean`), so the
+constants decided over ℚ carry over: `|idaubechies(daubechies f) y x − f y x| ≤ tableTol[code]·M` at every pixel with
+`y, x ≥ ncoeffs − 2` of every even-sided image with `|f| ≤ M`. -/
+theorem C17_tables_error_bound_field {K : Type} [Field K] [LinearOrder K] [IsStrictOrderedRing K]
+    (code : Nat) (hc : code < 10) (N0 N1 : Nat) (h0 : N0 % 2 = 0) (h1 : N1 % 2 = 0)
+    (f : Im K) (M : K) (hM : 0 ≤ M) (hf : ∀ y x, y < N0 → x < N1 → |f y x| ≤ M)
+    (y x : Nat) (hy : 2 * (code + 1) ≤ y + 2) (hyN : y < N0) (hx : 2 * (code + 1) ≤ x + 2) (hxN : x < N1) :
+    |idaubechies2 (coeffsOf code) N0 N1 (daubechies2 (coeffsOf code) N0 N1 f) y x - f y x|
+      ≤ ((tableTol.getD code 0 : ℚ) : K) * M := by
+  have h := List.all_eq_true.mp tables_consts code (List.mem_range.mpr hc)
+  simp only [Bool.and_eq_true, decide_eq_true_eq] at h
+  obtain ⟨hlen, htol⟩ := h
+  have hlenK : (coeffsOf code : List K).length = 2 * (code + 1) := by
+    rw [coeffsOf_cast, List.length_map, hlen]
+  have hb := (C17_reconstruction_error_bound_general (coeffsOf code : List K) (by rw [hlenK]; omega)
+    (by rw [hlenK]; omega) N0 N1 h0 h1 f M hM hf y x (by rw [hlenK]; exact hy) hyN (by rw [hlenK]; exact hx) hxN).1
+  refine le_trans hb (mul_le_mul_of_nonneg_right ?_ hM)
+  rw [coeffsOf_cast, errConst_cast]
+  have : ((2 * errConst (coeffsOf code : List ℚ) + errConst (coeffsOf code : List ℚ) ^ 2 : ℚ) : K)
+      ≤ ((tableTol.getD code 0 : ℚ) : K) := Rat.cast_le.mpr htol
+  simpa using this
+
+/-- **C17 (energy of the ten generated tables, any ordered field).** `C17_tables_energy_bound` over every linearly
+ordered field: relative energy defect of `daubechies` at most `4·tableTol[code]` on even-sided images vanishing in their
+first `ncoeffs − 2` rows and columns. -/
+theorem C17_tables_energy_bound_field {K : Type} [Field K] [LinearOrder K] [IsStrictOrderedRing K]
+    (code : Nat) (hc : code < 10) (N0 N1 : Nat) (h0 : N0 % 2 = 0) (h1 : N1 % 2 = 0) (f : Im K)
+    (hy0 : ∀ y x, y < N0 → x < N1 → y + 2 < 2 * (code + 1) → f y x = 0)
+    (hx0 : ∀ y x, y < N0 → x < N1 → x + 2 < 2 * (code + 1) → f y x = 0) :
+    |energy N0 N1 (daubechies2 (coeffsOf code) N0 N1 f) - 4 * energy N0 N1 f|
+      ≤ 4 * ((tableTol.getD code 0 : ℚ) : K) * energy N0 N1 f := by
+  have h := List.all_eq_true.mp tables_energy_consts code (List.mem_range.mpr hc)
+  simp only [Bool.and_eq_true, decide_eq_true_eq] at h
+  obtain ⟨hlen, htol⟩ := h
+  have hlenK : (coeffsOf code : List K).length = 2 * (code + 1) := by
+    rw [coeffsOf_cast, List.length_map, hlen]
+  have hb := (C17_daubechies_energy_bound (coeffsOf code : List K) (by rw [hlenK]; omega) (by rw [hlenK]; omega)
+    N0 N1 h0 h1 f (by rw [hlenK]; exact hy0) (by rw [hlenK]; exact hx0)).1
+  have hE : 0 ≤ energy N0 N1 f := by
+    rw [energy_eq_energy2]
+    unfold energy2
+    exact Finset.sum_nonneg fun y _ => Finset.sum_nonneg fun x _ => sq_nonneg _
+  refine le_trans hb (mul_le_mul_of_nonneg_right ?_ hE)
+  rw [coeffsOf_cast, errConst_cast]
+  have : ((8 * errConst (coeffsOf code : List ℚ) + 4 * errConst (coeffsOf code : List ℚ) ^ 2 : ℚ) : K)
+      ≤ ((4 * tableTol.getD code 0 : ℚ) : K) := Rat.cast_le.mpr htol
+  simpa using this
+
+/-- non-vacuity: the field of the theorem can be ℚ itself (the cast is then the identity), where the hypotheses are
+met by the `4 × 4` delta image of the energy example; and the table of `D4` over any field is the cast of the rational
+one -/
+example : |idaubechies2 (coeffsOf 1) 4 4 (daubechies2 (coeffsOf 1) 4 4 (fun y x => if y = 2 ∧ x = 2 then (1 : ℚ) else 0)) 2 2
+      - 1| ≤ ((tableTol.getD 1 0 : ℚ) : ℚ) * 1 := by
+  have := C17_tables_error_bound_field (K := ℚ) 1 (by omega) 4 4 rfl rfl
+    (fun y x => if y = 2 ∧ x = 2 then (1 : ℚ) else 0) 1 (by norm_num)
+    (by intro y x _ _; by_cases h : y = 2 ∧ x = 2 <;> simp [h]) 2 2 (by omega) (by omega) (by omega) (by omega)
+  simpa using this
